@@ -399,15 +399,22 @@ def evaluate_payload_template(input, context, template):
                     "States.ArrayRange failed, args[2] cannot be zero."
                 )
 
-            # Create range using list comprehension. Note end + 1 is used as
             # ASL spec specifies inclusive range but Python range is exclusive
-            array = [i for i in range(start, end + 1, increment)]
+            # so stop one past end, in the direction of the increment.
+            array_range = range(
+                start, end + 1 if increment > 0 else end - 1, increment
+            )
 
-            if len(array) > 1000:
+            # Check the size before creating the array, len(range) is O(1)
+            try:
+                too_big = len(array_range) > 1000
+            except OverflowError:  # More than sys.maxsize items
+                too_big = True
+            if too_big:
                 raise IntrinsicFailure(
                     "States.ArrayRange failed with > 1000 items in range."
                 )
-            return array
+            return list(array_range)
 
         def asl_intrinsic_ArrayGetItem(args):
             if len(args) != 2:
